@@ -31,6 +31,9 @@ SolvePeriod ==
   /\ Vimpl' = TLCEval(ImplStep(M, t - 1, Vimpl))
   /\ t' = t - 1 /\ UNCHANGED par
 Spec == Init /\ [][SolvePeriod]_vars
+\* liveness: the backward loop terminates with all periods solved
+FairSpec == Spec /\ WF_vars(SolvePeriod)
+AllPeriodsSolved == <>(t = 0)
 
 \* in every solved period the implementation-shaped array is the declarative solution
 ImplMatchesDecl ==
